@@ -61,8 +61,9 @@ Definition started_matches (script : bool) (proto : net) (s1 : state net unit na
     && list_eqb qentry_eqb (rev (map (fun e => (e_time e, e_id e, e_live e)) (queue k))) (so_queue o)
     && list_eqb (list_eqb elem_eqb) (loci k) (so_loci o)))
   && match v_net (view_of s1) with
-     | Some g => list_eqb Z.eqb (fst g) (so_nodes o) && Nat.eqb (List.length (snd g)) (List.length (so_edges o))
-                 && set_eqb edge_eqb (snd g) (so_edges o)
+     | Some g => list_eqb Z.eqb (fst g) (so_nodes o)
+                 && (negb script      (* shipped processes may rewrite the edges during build (Percolate) *)
+                     || (Nat.eqb (List.length (snd g)) (List.length (so_edges o)) && set_eqb edge_eqb (snd g) (so_edges o)))
      | None => false
      end
   && so_distinct o
